@@ -46,6 +46,45 @@ PROPS = {
         "design_ref": "DESIGN.md section 4, C10",
         "assumptions": ["input bytes 0..255", "a substitution of the first start delimiter by another valid delimiter is outside the single-byte clause (DESIGN 4.0)"],
     },
+    "C20": {
+        "coq": "Properties/C20.v",
+        "domains": ["prm"],
+        "nontrivial": ["set:ok", "set:err", "wv:ok", "wv:err", "new:"],
+        "rule": "cases = corpus/prm (F9 witnesses) + generated lines, deduplicated: WV = write_value_to_slice on bare slices (every data type incl. all "
+                "Bit(0..9)/BitArea(0..8,0..8) and malformed positions x boundary/extreme values x short/exact/long slices); PRM = a random description "
+                "(single fields of every type; several Bit/BitArea fields sharing a byte over constants plus integers; fully random overlapping layouts with "
+                "malformed bit positions, out-of-type defaults, duplicated names) followed by 3-14 set_prm/set_prm_from_text calls with in-range, boundary, "
+                "out-of-range, out-of-type, extreme (i64::MIN/MAX) values, unknown names and texts; as_bytes() and Ok/Err(kind)/PANIC after every call. "
+                "evaluations = case lines; non-trivial = individual new()/set calls and write_value calls by model verdict (set:ok:<type>, set:err:<kind>, new:*, wv:*)",
+        "trusted_base": [
+            "hand model coq/Model/Prm.v of gsd-parser/src/lib.rs (UserPrmDataType::write_value_to_slice, PrmValueConstraint::assert_valid, get_prm, "
+            "get_value_from_text, write_constrained_value_to_slice, PrmBuilder::{new, set_prm, set_prm_from_text, as_bytes}), tied by differential execution on this run's cases",
+            "gen/tr_prm.py: data type enum, size() table and the integer type of every integer arm of write_value_to_slice regenerated from the source",
+            "hand specification coq/Model/PrmOracle.v (value ranges of the GSD data types, field bit positions, big-endian two's complement as Z.testbit)",
+            "Rust u8 operators as modelled: & | ^ << on 0..255 = Z.land/Z.lor/Z.lxor/Z.shiftl (mod 256); names/text keys are numeric ids mapped to the strings p<id>/t<id>",
+        ],
+        "technique": "Coq proof (overlay / exact-bits / rejects-unchanged / exact type ranges / no-panic / history theorems over a Gallina model of the parameter-block "
+                     "builder, with the known class F9-bitarea excluded and refuted inside) + differential correspondence model vs crate + spec oracle on the crate's outputs",
+        "level_text": "Machine-checked theorems (Coq 8.16.1, closed under the global context) about the Gallina model of gsd-parser's PrmBuilder: new() builds exactly the "
+                      "constants overlaid field by field with the defaults; an admitted set_prm/set_prm_from_text changes exactly the bits that (offset, data type) define to the "
+                      "big-endian two's-complement value and no other bit, for every data type and every block state; every other call (unknown name/text, outside range/enumeration "
+                      "or data type) returns Err and leaves the block unchanged; each data type accepts exactly its value range (signed types their signed range); no description and no "
+                      "call sequence panics; the per-call oracle holds along every history. All of it for everything OUTSIDE one known class (F9-bitarea: a BitArea field written "
+                      "into a byte that has a bit set outside the area), inside which the law is refuted by theorem and reported as a known finding. The model is tied to the crate on "
+                      "every run by executing both on ~8k generated case lines (~35k individual new/set/write_value calls) and comparing as_bytes() and Ok/Err kind after every call; the "
+                      "specification oracle also runs on the crate's outputs.",
+        "level_note": "KNOWN FINDING F9-bitarea (status finding, not fixable with the suite unedited: regress_prm snapshot pins the clobbered byte): BitArea assigns the whole byte, so "
+                      "the property is FALSE of the crate inside the known class; the check prints KNOWN-FINDING and excuses only that class (a weaker oracle - own bits correct, all other "
+                      "bytes unchanged - still runs there). Three further F9 defects were repaired in the repository clone (Bit could not be cleared, Signed16 through u16, overflow panics "
+                      "on bit positions outside the byte); the model is of the repaired code. Trusted: Coq kernel, the regex translator, OCaml extraction + driver, Rust harness; the "
+                      "hand-written model is validated differentially, not verified, against lib.rs. usize overflow of offset+size and allocation failure are outside the model (offsets are nat).",
+        "design_ref": "DESIGN.md section 4, C20; section 7, F9",
+        "assumptions": [
+            "constant bytes 0..255, bit positions 0..255 (u8), values i64; offsets small enough that offset+size does not overflow usize and the block can be allocated",
+            "outside the known class F9-bitarea (known_write / known_new in coq/Model/PrmOracle.v)",
+            "text keys of one PrmText are unique (BTreeMap); the first reference with a name wins (get_prm)",
+        ],
+    },
 }
 
 NOT_CLAIMED = {}
